@@ -31,9 +31,14 @@ Definition F_HSCROLL : field := 51%nat.   Definition F_KEEPRIGHT : field := 52%n
 Definition F_FILEWORD : field := 54%nat.  Definition F_CURSORLINE : field := 55%nat. Definition F_CLEAR : field := 56%nat.
 Definition F_UNICODE : field := 57%nat.   Definition F_AMBIDOUBLE : field := 58%nat. Definition F_INFOCMD : field := 59%nat.
 Definition F_WITHSHELL : field := 60%nat. Definition F_PREVIEW : field := 61%nat.   Definition F_FORCETTY : field := 62%nat.
-Definition F_HMAXLOCAL : field := 63%nat.  (* the local variable historyMax of parseOptions; not an observable *)
-Definition NFIELDS : nat := 64%nat.
-Definition NOBSERVABLE : nat := 63%nat.
+(* display mode: the value of --tmux (none when absent / withdrawn by --no-tmux), and the POSITIONS at which the deciding
+   --tmux and --height were read (position = number of words before it in: options file ++ $FZF_DEFAULT_OPTS ++ command line) *)
+Definition F_TMUX : field := 63%nat.      Definition F_TMUXIDX : field := 64%nat.   Definition F_HEIGHTIDX : field := 65%nat.
+(* spec-level bookkeeping of the display-mode rule (below); not a field of fzf's Options *)
+Definition F_HAFTER : field := 66%nat.
+Definition F_HMAXLOCAL : field := 67%nat.  (* the local variable historyMax of parseOptions; not an observable *)
+Definition NFIELDS : nat := 68%nat.
+Definition NOBSERVABLE : nat := 67%nat.    (* fields 0..66 go over the wire; F_HAFTER (66) has no counterpart in the implementation *)
 
 Definition T : val := VI 1.
 Definition Fv : val := VI 0.
@@ -95,3 +100,28 @@ Definition scheme_criteria (s : str) : option (list Z) :=
   else None.
 
 Definition vints (l : list Z) : val := VL (map VI l).
+
+(* ---------------------------------------------------------------- display mode: --tmux against --height
+
+   "Later occurrences override earlier ones, with command-line arguments taking precedence over the environment",
+   for the two options that select HOW fzf starts: --tmux (a tmux popup) and --height (inline, below the cursor).
+   They override each other: whichever of the two is given LATER decides, where the order is
+       options file, then $FZF_DEFAULT_OPTS, then the command line, each left to right;
+   --no-tmux withdraws --tmux, --no-height withdraws --height.  As a rule on occurrences, with one boolean
+   F_HAFTER = "a --height has been given since the last --tmux and has not been withdrawn":
+       --tmux[=V]   : tmux := V,    hafter := false
+       --no-tmux    : tmux := none
+       --height H   : hafter := true
+       --no-height  : hafter := false
+   and fzf starts in the popup iff tmux is set and hafter is false.  No positions are involved. *)
+
+Definition is_some (v : val) : bool := match v with VL (_ :: _) => true | _ => false end.
+
+Definition popup_spec (fv : field -> val) : bool := is_some (fv F_TMUX) && negb (as_bool (fv F_HAFTER)).
+
+(* the value of --tmux: [center|top|bottom|left|right][,SIZE[%]][,SIZE[%]][,border-native], default center,50%:
+   (position, width, height, native border); a size is (number, is-percent) *)
+Definition P_UP : Z := 0.  Definition P_DOWN : Z := 1.  Definition P_LEFT : Z := 2.  Definition P_RIGHT : Z := 3.  Definition P_CENTER : Z := 4.
+Definition sz (v : Z) (percent : bool) : val := VL [VI v; vbool percent].
+Definition mk_tmux (pos : Z) (w h : val) (border : bool) : val := VL [VI pos; w; h; vbool border].
+Definition default_tmux : val := mk_tmux P_CENTER (sz 50 true) (sz 50 true) false.
